@@ -513,6 +513,10 @@ def end(ctx, res=None):
     return stuck
 
 
+# set by property modules whose statement covers exceptions escaping from library callbacks (C18, C02)
+JUDGE_CALLBACK_ESCAPES = [False]
+
+
 def check_common(res, prop_prefix="", deadlock_suffix=""):
     """Oracles every execution gets: definite deadlocks and uncaught
     exceptions in threads.  ``deadlock_suffix`` lets a scenario add what it was doing to the
@@ -523,6 +527,7 @@ def check_common(res, prop_prefix="", deadlock_suffix=""):
             "lock monitor: %s among %s" % (d["kind"], d["threads"]),
             deadlock=d,
         )
+    check_callback_escapes(res, judge=JUDGE_CALLBACK_ESCAPES[0])
     for e in instr.THREAD_ERRORS:
         role = e["role"] or "?"
         base = role.split("#")[0]
@@ -535,6 +540,22 @@ def check_common(res, prop_prefix="", deadlock_suffix=""):
             "uncaught %s in thread %s: %s" % (e["type"], role, e["msg"]),
             error=e,
         )
+
+
+def check_callback_escapes(res, label="", judge=True):
+    """Exceptions that a callback of the *library* let escape into the stdlib's future machinery (which logs and
+    swallows them).  judge=False only counts them."""
+    for e in list(instr.CF_CALLBACK_ERRORS):
+        if not e["in_library"]:
+            res.count("foreign.user_callback_raised_into_plain_future/%s" % e["type"])
+            continue
+        if judge:
+            res.violation("exception-escaped/delegate-callback/%s" % e["type"],
+                          "%s: a done-callback of the library let %s(%s) escape into the delegate / input future's callback "
+                          "dispatch (logged by concurrent.futures): %s" % (label, e["type"], e["msg"], " < ".join(reversed(e["frames"]))))
+        else:
+            res.count("foreign.exception_escaped_delegate_callback/%s" % e["type"])
+    del instr.CF_CALLBACK_ERRORS[:]
 
 
 # --------------------------------------------------------------------------
